@@ -18,7 +18,7 @@ CHECKS = {
  "C13": dict(cat="exploration", ref="§C13, §1.1",
     tech="property-based testing (Hypothesis) with a hidden-model round trip: instance documents of a generated regular model (SchemaSpec with one declaration per element name; JSON object shapes) are the only input of the code generator; oracles = strict parse of every sample into the generated root class (unknown properties/attributes and converter warnings are errors) and equality of the re-serialized sample (canonical infoset from an independent libxml2 parse; JSON modulo key order and nulls)",
     text="Generated search over hidden models (nested groups with occurrence ranges, attributes, qualified/unqualified forms, mixed and simple content, recursion, every inferable builtin type; JSON objects with nested objects, arrays of scalars/objects, optional keys, nulls, empty arrays), 1-4 samples per model with canonical value spellings, and generator options. Searched, not proved.",
-    note="Stand-ins for click/jinja2/toposort, no ruff. Element order is compared only where the hidden model has no repeated element or group and, with several samples, leaves the greedy merge of field orders no choice. Regions of the 10 recorded findings are excluded by construction (nil in some samples; elements that are empty in some samples and not in others; attributes missing from some samples of a childless element; array keys absent from a sample; keys that only hold null/[])."),
+    note="Stand-ins for click/jinja2/toposort, no ruff. Element order is compared only where the hidden model has no repeated element or group and, with several samples, leaves the greedy merge of field orders no choice. Regions of the 12 recorded findings are excluded by construction (nil in some samples; elements that are empty in some samples and not in others; attributes missing from some samples of a childless element; array keys absent from a sample; keys that only hold null/[])."),
  "C12": dict(cat="exploration", ref="§C12, §1.1",
     tech="property-based testing (Hypothesis) with a differential oracle across invocation routes: generated source sets (SchemaSpec schemas, XML sample sets, the repository's fixture source sets) x generated configurations are generated in fresh interpreters through the API under three PYTHONHASHSEED values, the API twice in one interpreter, the command line with flags, the command line with a project file, and the command line with --cache cold then warm; all file trees must be byte-identical",
     text="Generated search; per case seven generator runs in separate processes, compared path by path and byte by byte with the API run under PYTHONHASHSEED=0 (outcomes compared when generation is refused). Searched, not proved; the hash seeds are 2 of 8 fixed values per case.",
@@ -26,7 +26,7 @@ CHECKS = {
  "C07": dict(cat="exploration", ref="§C07, §1.1",
     tech="property-based testing (Hypothesis) over generated source sets with a hostile name alphabet (XML Schemas from the SchemaSpec generator, sets of schemas importing each other, irregular XML samples, irregular JSON samples) x the whole output-option space; oracles = outcome classification (success or the generator's own CodegenError), import of every generated module, XmlContext.build + instantiation of every generated class, AST scan of the generated source for names bound twice",
     text="Generated search: per case one source set and one point of the option space (structure style, compound fields incl. forced default name, wrapper fields, unnest, frozen/slots/eq/order/kw_only/unsafe_hash/repr, docstring style, naming case and safe prefix per name kind, relative imports, generic collections, line length, header). Generation must end in success or CodegenError; every module must import; every dataclass must yield binding metadata and accept construction; no class body may bind a field twice and no module or class body a class twice. Searched, not proved.",
-    note="Stand-ins for click/jinja2/toposort, no ruff. DTD and WSDL sources are exercised by C16/C17 only with plain names. Class-name schemes stay upper-case and field-name schemes lower-case (with one scheme for both a field and its inner class share a name by configuration); safe prefixes are letters. Regions of the 12 recorded findings (known_findings.json) are excluded by construction: `type` and letter-less names, empty / __class__ JSON keys, <Name>Type named types, XML samples with mixed content, case-colliding names or one local name in two namespaces, multi-sample / multi-namespace sets under non-cluster styles."),
+    note="Stand-ins for click/jinja2/toposort, no ruff. DTD and WSDL sources are exercised by C16/C17 only with plain names. Class-name schemes stay upper-case and field-name schemes lower-case (with one scheme for both a field and its inner class share a name by configuration); safe prefixes are letters. Regions of the 13 recorded findings (known_findings.json) are excluded by construction: `type` and letter-less names, empty / __class__ JSON keys, <Name>Type named types, XML samples with mixed content, case-colliding names or one local name in two namespaces, multi-sample / multi-namespace sets under non-cluster styles."),
  "C02": dict(cat="exploration", ref="§C02, §1.1",
     tech="property-based testing (Hypothesis) over generated XML Schemas: a SchemaSpec generator renders the XSD and builds instance documents valid by construction; oracles = libxml2 XSD validation of schema, inputs and (in the order-preserving fragment) outputs, a typed default-augmented infoset comparison of serialize(parse(doc)) with doc, and a metamorphic comparison between two generator configurations that differ only in output-only options",
     text="Generated search: per case one schema (namespaces and forms, named/anonymous complex types, nested sequence/choice/all particles with occurrence ranges, element refs, substitution groups, named groups, attribute groups, simple types by restriction/list/union/enumeration, attributes with use/default/fixed, wildcards, extension with xsi:type and abstract bases, nillable, simple content, recursion), 1-3 documents, two generator configurations. Generation must succeed, the package import, every document parse under the strictest settings, the typed unordered infoset survive the round trip, the ordered infoset and schema validity survive it in the order-preserving fragment, and both configurations agree. Searched, not proved.",
